@@ -69,8 +69,8 @@ ProgsAndOr ==
 (* later clauses that succeed, fail and print                                  *)
 CutLits == {Call(q1(X)), Call(r1(X)), CutG, FailG, UnifyG(X, b), pr(X), Call(c1(X))}
 CutLitsS == {Call(q1(X)), Call(r1(X)), CutG, FailG, pr(X)}
-HasCutG(g) == g = CutG \/ (g.g \in {"and", "or"} /\ \E i \in DOMAIN g.gs :
-                              g.gs[i] = CutG \/ (g.gs[i].g \in {"and", "or"} /\ \E j \in DOMAIN g.gs[i].gs : g.gs[i].gs[j] = CutG))
+RECURSIVE HasCutG(_)
+HasCutG(g) == g = CutG \/ (g.g \in {"and", "or"} /\ \E i \in DOMAIN g.gs : HasCutG(g.gs[i]))
 CutBodiesAll ==
        {AndG(<<l1, l2>>) : l1 \in CutLits, l2 \in CutLits}
   \cup {AndG(<<l1, l2, l3>>) : l1 \in CutLitsS, l2 \in CutLits, l3 \in CutLitsS}
@@ -79,6 +79,10 @@ CutBodiesAll ==
   \cup {OrG(<<l3, AndG(<<l1, l2>>)>>) : l1 \in CutLitsS, l2 \in CutLitsS, l3 \in CutLitsS}
   \cup {AndG(<<l1, OrG(<<l2, l3>>)>>) : l1 \in CutLitsS, l2 \in CutLitsS, l3 \in CutLitsS}
   \cup {AndG(<<OrG(<<l1, l2>>), l3>>) : l1 \in CutLitsS, l2 \in CutLitsS, l3 \in CutLitsS}
+  (* a conjunction nested in a conjunction: the cut freezes the nested one as a whole *)
+  \cup {AndG(<<AndG(<<l1, l2>>), l3>>) : l1 \in CutLitsS, l2 \in CutLitsS, l3 \in CutLitsS}
+  \cup {AndG(<<l3, AndG(<<l1, l2>>)>>) : l1 \in CutLitsS, l2 \in CutLitsS, l3 \in {Call(q1(X)), pr(X)}}
+  \cup {AndG(<<OrG(<<AndG(<<l1, l2>>), l3>>), l4>>) : l1 \in {CutG, Call(q1(X))}, l2 \in {CutG, Call(r1(X)), Call(q1(X))}, l3 \in {Call(r1(X))}, l4 \in {Call(r1(X)), Call(q1(X)), FailG}}
   \cup {CutG}
 CutBodies == {bd \in CutBodiesAll : HasCutG(bd) \/ (bd.g = "and" /\ \E i \in DOMAIN bd.gs : bd.gs[i] = Call(c1(X)))}
 CalledCut == <<Clause(c1(X), AndG(<<Call(q1(X)), CutG>>)), Fact(c1(c))>>
